@@ -156,14 +156,26 @@ func (propC14) Check(r *Run) []Violation {
 		nativeHealthy := false
 		for _, ep := range r.Plan.Endpoints {
 			if st, ok := statusBefore(r.Stack.Rec, ep.Name, c.StartStep, c.StartAt); ok && st == "healthy" && t.native(ep.Type) {
-				// the handler resolves support by profile name only; prefix spellings are translated (allowed direction)
-				if _, isProfile := t.profiles[ep.Type]; isProfile {
+				// (whatever spelling of the profile the endpoint is configured with: validation accepts every
+				// routing prefix, and the documentation itself writes "type: lmstudio")
+				// ... and stays healthy until the request is dispatched: the candidates are read some time after the
+				// first byte of the request arrived
+				stable := true
+				for _, w := range r.Stack.Rec.Repo {
+					if w.Name == ep.Name && w.At >= c.StartAt && len(exs) > 0 && w.At <= exs[0].ArrivedAt && w.Status != "healthy" {
+						stable = false
+					}
+				}
+				if stable {
 					nativeHealthy = true
 				}
 			}
 		}
-		if sawChat && r.Plan.Stack.Passthrough && nativeHealthy {
+		if sawChat && !sawMessages && r.Plan.Stack.Passthrough && nativeHealthy {
+			// "...; otherwise it is translated": with passthrough enabled and a healthy native candidate there is
+			// no otherwise
 			r.Sim.Probe("c14.translated-although-native-available")
+			add("C14/translated-although-native-endpoint-available", "op %d: passthrough is enabled and a healthy endpoint with native Anthropic support was a candidate (types %v), yet the request was translated and sent to %s %s", c.OpID, typeOf, exs[0].Backend, exs[0].Path)
 		}
 		switch {
 		case sawMessages:
